@@ -85,6 +85,16 @@ def random_instance(rng, nmol=2):
         inst["root"].append(1)
         k = rng.choice([0, 0, 1, 2, 3])
         inst["attr"].append(sorted(rng.sample(range(1, n + 1), k)))
+        # cyclic residue graphs: extra bonds that are not edges of the growth tree (ring closures, bridges)
+        extra = []
+        if n >= 4 and rng.random() < 0.5:
+            have = {frozenset(e) for e in edges}
+            for _ in range(rng.choice([1, 1, 2])):
+                a, b = rng.sample(range(1, n + 1), 2)
+                if frozenset((a, b)) not in have:
+                    have.add(frozenset((a, b)))
+                    extra.append([a, b])
+        inst.setdefault("extra", {})[m + 1] = extra
     return inst
 
 
@@ -100,7 +110,7 @@ def _random_trace(arg):
             return kinds[1]
         return kinds[0]
     try:
-        evs, err = w.run_instance(inst, None, seed=k, chooser=chooser, check_path=False)
+        evs, err = w.run_instance(inst, None, seed=k, chooser=chooser, check_path=False, extra_edges=inst.get("extra"))
     except Exception as exc:
         return {"error": "MACHINERY %s: %s" % (type(exc).__name__, exc)}
     hdr = w.run_instance.last.header
